@@ -104,7 +104,15 @@ def gen_scenario(rng, idx):
             beh['ld_0'] = '%s,%s,%d' % (rng.choice(['before', 'half', 'finish']), rng.choice(['exit1', 'segv', 'kill', 'term']), rng.choice([0, 50]))
             what = 'linker: ' + beh['ld_0']
     unknown_child = rng.random() < 0.12
-    return dict(argv=argv, beh=beh, nospawn=nospawn, unknown_child=unknown_child, what=what, mode=mode, ninputs=n, kind=kind)
+    # the driver may be started with standard input and/or output closed: pipe() then hands out descriptors 0 and 1, which
+    # the stages' redirections must cope with (standard output is closed only when no stage writes to it and no failure is injected:
+    # the stubs report their own termination through descriptors they inherit)
+    closed = None
+    if not unknown_child and rng.random() < 0.15:
+        to_stdout = mode == '-E' or '-' in argv or (mode in ('-S', '-emit-qbe') and False)
+        closed = rng.choice(['in', 'in'] + ([] if to_stdout or '-v' in argv or kind != 'none' else ['out', 'both', 'out', 'both']))
+        what += '; driver started with standard %s closed' % {'in': 'input', 'out': 'output', 'both': 'input and output'}[closed]
+    return dict(argv=argv, beh=beh, nospawn=nospawn, unknown_child=unknown_child, what=what, mode=mode, ninputs=n, kind=kind, closed=closed)
 
 
 class ProcRig(Rig):
@@ -148,6 +156,8 @@ class ProcRig(Rig):
         prefix = None
         if sc['unknown_child']:
             prefix = [b'/bin/sh', b'-c', b'(exit 3) & exec "$0" "$@"']
+        elif sc.get('closed'):
+            prefix = [b'/bin/sh', b'-c', b'exec "$0" "$@"' + {'in': b' <&-', 'out': b' >&-', 'both': b' <&- >&-'}[sc['closed']]]
         res = self.run([a.encode() for a in sc['argv']], r=r, env_extra=env, timeout=timeout, preload=self.shim,
                        tooldir=self.tooldirs.get(sc['nospawn']), bindir=self.bindirs.get(sc['nospawn']), keep=True, prefix_cmd=prefix)
         try:
@@ -218,6 +228,8 @@ def observe(res, bindir_cc):
             state = 'spawning'
             o = next((argv[i + 1] for i in range(1, len(argv) - 1) if argv[i] == b'-o'), None)
             info['attempted'].setdefault(k, []).append((tool, o))
+            if ret == 0 and len(info['attempted'][k]) == 1:
+                info.setdefault('first_pids', set()).add(child)
             if ret == 0:
                 pi = pid_index(child)
                 info['spawned'].append(child)
@@ -282,6 +294,11 @@ def spec_check(sc, res, info):
             bad.append('child %d (%s) was started but never reaped' % (p, recs.get(p, {}).get('id', '?')))
     for r in res['leftover']:
         bad.append('%s.%d (pid %d) still running after the driver exited' % (r['id'], r['k'], r['pid']))
+    # every stage but the first of its pipeline reads the previous stage's output from its standard input
+    for p in info['spawned']:
+        r = recs.get(p)
+        if r is not None and 'stdin-error' in r['events'] and p not in info.get('first_pids', ()) and r['id'] != 'ld':
+            bad.append('%s.%d could not read its standard input: the pipe from the previous stage was not connected to it (or closed again)' % (r['id'], r['k']))
     for t in info['temps']:
         if os.path.exists(t):
             bad.append('temporary object %s left behind' % t.decode())
